@@ -10,8 +10,8 @@ import re
 from facts import (AnchorMissing, callee, lit_value, nodes, pat_alternatives, pat_head, pat_variants, peel, short, unblock,
                    walk)
 from shared import TI, arm_rows, panics_in, the_match, variant_paths
-from c11_util import LexError, build_tokenizer, check_quoting_chain, keywords_table, reserved_words, strip_ty, is_str_ty
-from c11 import Scopes, pat_bindings
+from c11_util import (hash_iteration_sites, LexError, Scopes, build_tokenizer, check_quoting_chain, fmt_calls, is_str_ty, keywords_table,
+                      reserved_words, strip_ty)
 
 TITLE = ("C12: every primitive/constructor keyword printed by the two type printers lexes to the token of the same "
          "constructor and closes back through PrimType::str_to_enum/check_prim; identifier-shaped lexer tokens are quoted and "
@@ -403,16 +403,16 @@ def run(chk, facts, tier, only=None):
     # ------------------------------------------------------------------------------------------------ R3
     def r3():
         # (a) is_tuple: every field id equals its position
-        for crate, rx, name, ctor in ((c, r"internal::TypeInner::is_tuple$", "TypeInner::is_tuple", TI + "Record"),
-                                      (p, r"syntax::IDLType::is_tuple$", "IDLType::is_tuple", IT + "RecordT"),
-                                      (c, r"pretty::candid::value::is_tuple$", "value::is_tuple", IV + "Record")):
+        for crate, rx, name, ctor, fld in ((c, r"internal::TypeInner::is_tuple$", "TypeInner::is_tuple", TI + "Record", "id"),
+                                           (p, r"syntax::IDLType::is_tuple$", "IDLType::is_tuple", IT + "RecordT", "label"),
+                                           (c, r"pretty::candid::value::is_tuple$", "value::is_tuple", IV + "Record", "id")):
             h = crate.fn(rx)
             chk.analysed(h["key"])
-            ok, why = is_tuple_shape(h, ctor)
+            ok, why = is_tuple_shape(h, ctor, crate, fld)
             chk.expect(ok, f"is_tuple:{name}",
-                       f"{name} no longer has the shape `Record(fs) => all (i, f) in fs.iter().enumerate(): f.id.get_id() == i`, "
-                       f"`_ => false` ({why}): the tuple shorthand would drop labels the grammar does not re-create",
-                       f"{h['span']['file']}:{h['span']['lo']}", ok_detail="ids 0,1,2,.. in order")
+                       f"{name} is not `the field ids are exactly 0, 1, .., n-1 in order` ({why}): the tuple shorthand would drop "
+                       f"labels that the grammar's numbering does not re-create",
+                       f"{h['span']['file']}:{h['span']['lo']}", ok_detail="true exactly for ids 0..n-1 (30 id sequences over {0..3}, Id and Unnamed)")
         # Debug for IDLValue::Record elides a label exactly when its id equals the position
         h = c.fn(r"Debug for candid::types::value::IDLValue>::fmt$")
         rows = [r for r in arm_rows(the_match(h, r"IDLValue$", 20)) if any(hd[0] == IV + "Record" for hd in r["heads"])]
@@ -451,6 +451,8 @@ def run(chk, facts, tier, only=None):
         why = "no guarded Vec arm"
         if len(vec_rows) == 2 and vec_rows[0]["guard"] is not None and vec_rows[1]["guard"] is None:
             gh = guard_heads(vec_rows[0]["guard"])
+            if not gh:
+                raise AnchorMissing("pp_ty_inner: the guard of the `blob` arm is not a `matches!(t.as_ref(), <pattern>)`")
             ok = gh == {TI + "Nat8"} and lm.of(vec_rows[0]["body"], sc) == {"blob"}
             why = f"guard accepts {sorted(short(x) for x in gh)}, prints {sorted(lm.of(vec_rows[0]['body'], sc))}"
         chk.expect(ok, "blob:pp_ty_inner", f"pp_ty_inner must print `blob` exactly for Vec(t) with t = Nat8 and `vec t` otherwise ({why})",
@@ -462,6 +464,8 @@ def run(chk, facts, tier, only=None):
         why = "no if"
         if len(ifs) == 1:
             gh = guard_heads(ifs[0]["c"])
+            if not gh:
+                raise AnchorMissing("syntax::pretty::pp_vec: the `blob` condition is not a `matches!(ty, <pattern>)`")
             t_first = lm.of(ifs[0]["t"], Scopes(h))
             e_first = lm.of(ifs[0]["e"], Scopes(h)) if ifs[0].get("e") else set()
             ok = gh == {IT + "PrimT", PT + "Nat8"} and t_first == {"blob"} and e_first == {"vec"}
@@ -631,32 +635,29 @@ def run(chk, facts, tier, only=None):
             return None
         return cond["op"]
 
-    def is_tuple_shape(h, ctor):
-        ms = [m for m in nodes(h["body"], "match") if m.get("src") == "Normal"]
-        if not ms:
-            return False, "no match"
-        m = ms[0]
-        rec = [a for a in m["arms"] if ctor in pat_variants(a["pat"])]
-        other = [a for a in m["arms"] if ctor not in pat_variants(a["pat"])]
-        if len(rec) != 1 or not other or any(lit_value(a["body"]) is not False for a in other):
-            return False, "arms are not `Record(fs) => .., _ => false`"
-        lp = enumerate_loop(rec[0]["body"])
-        if lp is None:
-            return False, "no loop over fs.iter().enumerate()"
-        iname, xname, body = lp
-        ifs = nodes(body, "if")
-        if len(ifs) != 1 or ifs[0].get("e") is not None:
-            return False, "loop body is not a single `if`"
-        if id_vs_index(ifs[0]["c"], iname, xname) != "Ne":
-            return False, "condition is not `field.id.get_id() != i as u32`"
-        rets = nodes(ifs[0]["t"], "ret")
-        if len(rets) != 1 or lit_value(rets[0].get("e")) is not False:
-            return False, "mismatch does not `return false`"
-        tail = unblock(rec[0]["body"])
-        if tail.get("k") == "block":
-            tail = tail.get("e")
-        if lit_value(tail) is not True:
-            return False, "loop is not followed by `true`"
+    def is_tuple_shape(h, ctor, crate, field_name):
+        """decide is_tuple on every strictly increasing id sequence over {0..3} (length <= 3) and on non-records"""
+        from itertools import combinations
+        from c11_util import Interp, NotEvaluable
+        interp = Interp(crate)
+        OPQ = ("opaque",)
+
+        def record(ids, kind):
+            fs = [("struct", {field_name: ("enum", LB + kind, [i]), "ty": OPQ, "typ": OPQ, "val": OPQ, "docs": []}) for i in ids]
+            return ("enum", ctor, [fs])
+        try:
+            for n in range(0, 4):
+                for ids in combinations(range(4), n):
+                    for kind in ("Id", "Unnamed"):
+                        got = interp.call_fn(h, [record(ids, kind)])
+                        want = list(ids) == list(range(n))
+                        if got is not want:
+                            return False, f"field ids {list(ids)} give {got}, expected {want}"
+            other = ctor.rsplit("::", 1)[0] + "::" + ("Null" if not ctor.endswith("RecordT") else "PrincipalT")
+            if interp.call_fn(h, [("enum", other, [])]) is not False:
+                return False, "a non-record is reported as a tuple"
+        except NotEvaluable as e:
+            raise AnchorMissing(f"{h['key']} is outside the evaluable fragment: {e}")
         return True, ""
 
     def elision_shape(body):
@@ -669,7 +670,6 @@ def run(chk, facts, tier, only=None):
             return False, "loop body is not a single if/else"
         if id_vs_index(ifs[0]["c"], iname, xname) != "Eq":
             return False, "condition is not `e.id.get_id() == i as u32`"
-        from c11_util import fmt_calls
         t_ph = [ph for fc in fmt_calls(ifs[0]["t"]) for ph in fc.placeholders()]
         e_ph = [ph for fc in fmt_calls(ifs[0]["e"]) for ph in fc.placeholders()]
         if len(t_ph) != 1 or len(e_ph) != 1:
@@ -695,38 +695,99 @@ def run(chk, facts, tier, only=None):
             e = unblock(e)
             return e.get("k") == "path" and (e.get("res") or {}).get("path") == cnt
 
-        # order of effects in the Unnamed arm: value of the new label relative to the assignment
-        events = []
-        for n in walk(un["body"]):
-            if n.get("k") == "assign" and is_cnt(n["a"]):
-                b = unblock(n["b"])
-                if b.get("k") == "bin" and b["op"] == "Add" and is_cnt(b["a"]) and lit_value(b["b"]) == 1:
-                    events.append("inc")
-                else:
-                    events.append("assign?")
-            elif n.get("k") == "assignop" and is_cnt(n["a"]):
-                events.append("inc" if n.get("op") == "Add" and lit_value(n["b"]) == 1 else "assign?")
-            elif n.get("k") == "call" and callee(n) == LB + "Unnamed":
-                a = unblock(n["args"][0])
-                if is_cnt(a):
-                    events.append("use")
-                elif a.get("k") == "bin" and a["op"] == "Sub" and is_cnt(a["a"]) and lit_value(a["b"]) == 1:
-                    events.append("use-1")
-                else:
-                    events.append("use?")
-        if events not in (["inc", "use-1"], ["use", "inc"]):
-            return False, f"Unnamed arm effects {events} are not `label = counter; counter += 1`"
-        ev2 = []
-        for n in walk(ot["body"]):
-            if n.get("k") == "assign" and is_cnt(n["a"]):
-                b = unblock(n["b"])
-                if b.get("k") == "bin" and b["op"] == "Add" and lit_value(b["b"]) == 1 and \
-                        unblock(b["a"]).get("k") == "mcall" and unblock(b["a"])["m"] == "get_id":
-                    ev2.append("reset")
-                else:
-                    ev2.append("assign?")
-        if ev2 != ["reset"]:
-            return False, f"explicit-label arm effects {ev2} are not `counter = id + 1`"
+        CONV_CALLS = ("Try::branch", "TryFrom::try_from", "From::from", "Into::into", "TryInto::try_into", "Result::Ok",
+                      "Option::Some")
+        CONV_METHODS = {"map_err", "unwrap", "expect", "into", "try_into", "clone", "ok_or", "ok_or_else", "unwrap_or",
+                        "unwrap_or_else", "unwrap_or_default", "to_owned", "min", "checked_add"}
+
+        def sym(e, env):
+            """symbolic value: ('cnt', k) = counter at arm entry + k, ('id', k) = explicit field id + k, ('const', v), None"""
+            if not isinstance(e, dict):
+                return None
+            e = unblock(e)
+            k = e.get("k")
+            if k == "lit":
+                v = lit_value(e)
+                return ("const", v) if isinstance(v, int) and not isinstance(v, bool) else None
+            if k == "path":
+                return env.get((e.get("res") or {}).get("path"))
+            if k in ("cast", "ref"):
+                return sym(e["e"], env)
+            if k == "un" and e.get("op") == "Deref":
+                return sym(e["a"], env)
+            if k == "bin" and e.get("op") in ("Add", "Sub"):
+                a, b_ = sym(e["a"], env), sym(e["b"], env)
+                if a and b_ and b_[0] == "const":
+                    return (a[0], a[1] + (b_[1] if e["op"] == "Add" else -b_[1]))
+                if a and b_ and a[0] == "const" and e["op"] == "Add":
+                    return (b_[0], b_[1] + a[1])
+                return None
+            if k == "match" and e.get("src") == "TryDesugar":
+                return sym(e["scrut"], env)
+            if k == "call":
+                cal = callee(e) or ""
+                if any(cal.endswith(x) for x in CONV_CALLS) or re.search(r"::(try_from|from)$", cal):
+                    return sym(e["args"][0], env) if e.get("args") else None
+                return None
+            if k == "mcall":
+                if e["m"] == "get_id":
+                    return ("id", 0)
+                if e["m"] in CONV_METHODS:
+                    return sym(e["recv"], env)
+                return None
+            return None
+
+        def run_arm(body):
+            env = {cnt: ("cnt", 0)}
+            labels = []
+
+            def visit(n):
+                if isinstance(n, list):
+                    for x in n:
+                        visit(x)
+                    return
+                if not isinstance(n, dict):
+                    return
+                k = n.get("k")
+                if k == "closure":
+                    return
+                if k == "slet":
+                    if n.get("init") is not None:
+                        visit(n["init"])
+                        if n["pat"].get("k") == "bind":
+                            env[n["pat"]["n"]] = sym(n["init"], env)
+                    return
+                if k == "assign" and is_cnt(n["a"]):
+                    visit(n["b"])
+                    env[cnt] = sym(n["b"], env)
+                    return
+                if k == "assignop" and is_cnt(n["a"]):
+                    d = sym(n["b"], env)
+                    cur = env.get(cnt)
+                    op = str(n.get("op") or "")
+                    if cur and d and d[0] == "const" and op.startswith(("Add", "Sub")):
+                        env[cnt] = (cur[0], cur[1] + (d[1] if op.startswith("Add") else -d[1]))
+                    else:
+                        env[cnt] = None
+                    return
+                if k == "call" and callee(n) == LB + "Unnamed":
+                    labels.append(sym(n["args"][0], env))
+                    return
+                for key, v in n.items():
+                    if key in ("res", "callee", "v", "mac", "ga", "pat"):
+                        continue
+                    if isinstance(v, (dict, list)):
+                        visit(v)
+            visit(body)
+            return env.get(cnt), labels
+
+        end_u, labels_u = run_arm(un["body"])
+        if labels_u != [("cnt", 0)] or end_u != ("cnt", 1):
+            return False, (f"unnamed arm gives the label {labels_u} and leaves the counter at {end_u}; expected label = counter, "
+                           f"counter + 1 afterwards")
+        end_o, labels_o = run_arm(ot["body"])
+        if labels_o or end_o != ("id", 1):
+            return False, f"explicit-label arm leaves the counter at {end_o}; expected id + 1"
         return True, ""
 
     # ------------------------------------------------------------------------------------------------ R4
@@ -819,13 +880,11 @@ def run(chk, facts, tier, only=None):
                     continue
                 n += 1
                 chk.analysed(b.key)
-                for bb, t, cal in b.call_sites():
-                    ga = ((t["f"].get("k") or {}).get("ga") or []) if isinstance(t.get("f"), dict) else []
-                    if cal and (re.search(r"hash::(map::HashMap|set::HashSet)<.*>::(iter|keys|values|into_iter|drain|iter_mut|values_mut|into_keys|into_values)$", cal)
-                                or ("IntoIterator" in cal and any("HashMap" in (g or "") or "HashSet" in (g or "") for g in ga))):
-                        bad += 1
-                        chk.bad(f"hash-iter:{b.key}", f"{b.key} iterates a HashMap/HashSet ({cal}): the printed .did text would depend on the hasher",
-                                where=f"{b.span['file']}:{t.get('ln')}")
+                sites = hash_iteration_sites(b)
+                if sites:
+                    bad += 1
+                    chk.bad(f"hash-iter:{b.key}", f"{b.key} iterates a HashMap/HashSet ({sites[0][0]}): the printed .did text would depend on the hasher",
+                            where=f"{b.span['file']}:{sites[0][1]}")
         if not bad:
             chk.ok("no-hash-iteration", f"{n} bodies of pretty/candid.rs, pretty/utils.rs and syntax/pretty.rs contain no HashMap/HashSet iteration")
         chk.floor("type-printer bodies scanned for unordered iteration", n, 60)
